@@ -15,8 +15,10 @@
 From stdpp Require Import gmap.
 From Coq Require Import ZArith NArith.
 From Lib Require LTS SyncSkel.
-From Model Require Import C06_PCache C07_PCacheConc.
-From Proofs Require Import C06_PCache C07_PCacheConc.
+From Lib Require Bytes.
+From Model Require C17_GetResults.
+From Model Require Import C06_PCache C07_PCacheConc Compose_C07_C17.
+From Proofs Require Import C06_PCache C07_PCacheConc Compose_C07_C17.
 From Gen Require Import Gen_Sync_pcache Gen_Writes_pcache.
 
 Notation reachable nm ttl auto := (LTS.reachable (stepf nm ttl) (ginit auto)).
@@ -156,3 +158,81 @@ Print Assumptions writers_take_slot_first.
 Theorem skeleton_matches : Skel.matches pcache_funcs = true.
 Proof. vm_compute. reflexivity. Qed.
 Print Assumptions skeleton_matches.
+
+(* ---------------------------------------------------------------- *)
+(* C07 o C06 o C17: result expansion.
+
+   [payload : rec -> C17_GetResults.record] gives, for a record of the cache model (time +
+   version tag), the AddrInfo / ExtendedProviders of that same *ProviderInfo object; any
+   such function will do (model/Compose_C07_C17.v says why the structure is a function of
+   the record's identity).  [getresults_return payload th ctx md] is what the GetResults
+   call of thread [th] hands back for the context ID and metadata it was given: C17's
+   [get_results] on the record getReadOnly returned, nil results for nil, or the error.   *)
+
+(* (1) A completed GetResults(pid, ctx, md) never panicked and returned either the context
+   error of a cancelled miss, or exactly C17's get_results — equal to C17's specification
+   spec_results — of the ONE record C06's view of ONE snapshot holds for pid, that snapshot
+   having been current between the call and its return (nil results if that snapshot holds
+   a negative entry).  Main provider and extended providers therefore come from the same
+   update. *)
+Theorem get_results_linearises_to_c17 : forall nm ttl auto payload s t th pid ctx md out,
+  reachable nm ttl auto s -> threads s t = Some th -> t_call th = CGetResults pid ->
+  getresults_return payload th ctx md = Some out ->
+  Bytes.is_panic out = false /\
+  (out = Bytes.Err 0%N /\ t_pc th = Fin ResErr \/
+   exists st mid uid,
+     hist s !! l_ver th = Some (st, mid, uid) /\ l_born th <= l_ver th <= cur_ver s /\
+     match view st pid with
+     | Some (Some r) =>
+       out = C17_GetResults.get_results (payload r) pid ctx md /\
+       out = Bytes.Ok (C17_GetResults.spec_results (payload r) pid ctx md)
+     | Some None => out = Bytes.Ok []
+     | None => False
+     end).
+Proof. exact get_results_linearises_to_c17_l. Qed.
+Print Assumptions get_results_linearises_to_c17.
+
+(* (2) The miss path.  A GetResults call whose provider was not in the snapshot it loaded
+   is, once the sources have answered, at TRelease (it published the entry built from the
+   sources' answers: [miss_record] = the freshest record found, None if none) or at
+   MReleaseHit v (another writer stored the provider meanwhile).  Its next two own steps are
+   enabled in that state and it returns that very record, which is what C06's view of its
+   own Store / of the current snapshot holds for pid ... *)
+Theorem get_results_miss_path : forall nm ttl auto s t th pid,
+  reachable nm ttl auto s -> threads s t = Some th -> t_call th = CGetResults pid ->
+  (t_pc th = TRelease ->
+     (exists st mid uid, hist s !! l_ver th = Some (st, mid, uid) /\
+        l_born th <= l_ver th <= cur_ver s /\ view st pid = Some (miss_record ttl s th)) /\
+     returns_after_two_steps nm ttl s t (miss_record ttl s th)) /\
+  (forall v, t_pc th = MReleaseHit v ->
+     view (cur s) pid = Some v /\ returns_after_two_steps nm ttl s t v).
+Proof. exact get_results_miss_path_l. Qed.
+Print Assumptions get_results_miss_path.
+
+(* ... and what it hands back is C17's expansion of it: spec_results of the cached record,
+   empty results for a negative entry. *)
+Theorem get_results_miss_path_expansion : forall payload th2 pid v ctx md,
+  t_call th2 = CGetResults pid -> t_pc th2 = Fin (ResGet v) ->
+  getresults_return payload th2 ctx md = Some (expand payload v pid ctx md) /\
+  match v with
+  | Some r => expand payload v pid ctx md = Bytes.Ok (C17_GetResults.spec_results (payload r) pid ctx md)
+  | None => expand payload v pid ctx md = Bytes.Ok []
+  end.
+Proof. exact miss_path_expansion. Qed.
+Print Assumptions get_results_miss_path_expansion.
+
+(* (3) Successive GetResults of one caller for a provider that stays cached: each is C17's
+   expansion of one record, and the later call never expands an older record. *)
+Theorem get_results_monotone : forall nm ttl auto payload s t1 t2 th1 th2 pid ctx1 md1 ctx2 md2 out1 out2 r1 r2,
+  reachable nm ttl auto s ->
+  threads s t2 = Some th2 -> t_prev th2 = Some t1 -> threads s t1 = Some th1 ->
+  t_call th1 = CGetResults pid -> t_call th2 = CGetResults pid ->
+  t_pc th1 = Fin (ResGet (Some r1)) -> t_pc th2 = Fin (ResGet (Some r2)) ->
+  getresults_return payload th1 ctx1 md1 = Some out1 -> getresults_return payload th2 ctx2 md2 = Some out2 ->
+  (forall k st mid uid, l_ver th1 <= k <= l_ver th2 -> hist s !! k = Some (st, mid, uid) ->
+     is_Some (visible st pid)) ->
+  out1 = C17_GetResults.get_results (payload r1) pid ctx1 md1 /\
+  out2 = C17_GetResults.get_results (payload r2) pid ctx2 md2 /\
+  l_ver th1 <= l_ver th2 /\ (eff_time r1 <= eff_time r2)%Z.
+Proof. exact get_results_monotone_l. Qed.
+Print Assumptions get_results_monotone.
